@@ -553,27 +553,112 @@ func (fr *frame) concreteIndex(v Value, t types.Type, n int, site ssa.Instructio
 		}
 		return idx
 	case Sym:
-		w, signed := width(t)
-		var inRange *Term
-		switch {
-		case w < 64 && uint64(n) > mask(w)>>b2u(signed):
-			// the index type cannot exceed the length
-			if signed {
-				inRange = mkBin(OSLe, mkConst(0, w), x.t)
-			} else {
-				inRange = tTrue
-			}
-		case signed:
-			inRange = mkAnd(mkBin(OSLe, mkConst(0, w), x.t), mkBin(OSLt, x.t, mkConst(uint64(n), w)))
-		default:
-			inRange = mkBin(OULt, x.t, mkConst(uint64(n), w))
-		}
-		if !in.decide(inRange) {
-			panic(goPanic{val: fmt.Sprintf("runtime error: index out of range [symbolic] with length %d (%s)", n, what), where: in.where(site)})
-		}
+		fr.requireInRange(x, t, n, site, what)
 		return in.concretize(x.t, 0, n-1)
 	}
 	panic(fmt.Sprintf("index of %T", v))
+}
+
+// requireInRange: the bounds check of an index expression with a symbolic index (forks; the failing side panics).
+func (fr *frame) requireInRange(x Sym, t types.Type, n int, site ssa.Instruction, what string) {
+	in := fr.in
+	w, signed := width(t)
+	var inRange *Term
+	switch {
+	case w < 64 && uint64(n) > mask(w)>>b2u(signed):
+		// the index type cannot exceed the length
+		if signed {
+			inRange = mkBin(OSLe, mkConst(0, w), x.t)
+		} else {
+			inRange = tTrue
+		}
+	case signed:
+		inRange = mkAnd(mkBin(OSLe, mkConst(0, w), x.t), mkBin(OSLt, x.t, mkConst(uint64(n), w)))
+	default:
+		inRange = mkBin(OULt, x.t, mkConst(uint64(n), w))
+	}
+	if !in.decide(inRange) {
+		panic(goPanic{val: fmt.Sprintf("runtime error: index out of range [symbolic] with length %d (%s)", n, what), where: in.where(site)})
+	}
+}
+
+// tableLoad is what &table[i] evaluates to when i is symbolic, the table holds scalars only and the address is used
+// for nothing but loads: the loaded value as one term (a chain of if-then-else over the index) instead of one path
+// per index value. Table-driven code (base64 alphabets, character classes) stays one path.
+type tableLoad struct{ v Value }
+
+func onlyLoaded(x *ssa.IndexAddr) bool {
+	refs := x.Referrers()
+	if refs == nil || len(*refs) == 0 {
+		return false
+	}
+	pending := map[ssa.Instruction]bool{}
+	for _, r := range *refs {
+		u, ok := r.(*ssa.UnOp)
+		if !ok || u.Op != token.MUL || u.Block() != x.Block() {
+			return false
+		}
+		pending[u] = true
+	}
+	// the value is read when the address is taken: nothing between the two may write memory
+	started := false
+	for _, ins := range x.Block().Instrs {
+		if ins == ssa.Instruction(x) {
+			started = true
+			continue
+		}
+		if !started {
+			continue
+		}
+		if pending[ins] {
+			delete(pending, ins)
+			if len(pending) == 0 {
+				return true
+			}
+			continue
+		}
+		switch ins.(type) {
+		case *ssa.Store, *ssa.Call, *ssa.MapUpdate, *ssa.Go, *ssa.Defer, *ssa.Send, *ssa.Select, *ssa.RunDefers:
+			return false
+		}
+	}
+	return false
+}
+
+func (fr *frame) tableSelect(x *ssa.IndexAddr, base Pointer, off, n int, idx Sym, ins ssa.Instruction, what string) (Value, bool) {
+	if n < 2 || n > 256 || !onlyLoaded(x) {
+		return nil, false
+	}
+	et := x.Type().(*types.Pointer).Elem()
+	if b, ok := et.Underlying().(*types.Basic); !ok || b.Info()&types.IsInteger == 0 {
+		return nil, false
+	}
+	ew, _ := width(et)
+	elems := make([]*Term, n)
+	for i := 0; i < n; i++ {
+		switch e := base.sub(off + i).load().(type) {
+		case Int:
+			elems[i] = mkConst(e.v, ew)
+		case Sym:
+			elems[i] = e.t
+		default:
+			return nil, false
+		}
+	}
+	fr.requireInRange(idx, x.Index.Type(), n, ins, what)
+	iw, _ := width(x.Index.Type())
+	acc := elems[n-1]
+	def := acc
+	for i := n - 2; i >= 0; i-- {
+		if elems[i].isConst() && def.isConst() && elems[i].c == def.c {
+			continue // the default already yields this value
+		}
+		acc = mkIte(mkEq(idx.t, mkConst(uint64(i), iw)), elems[i], acc)
+	}
+	if acc.isConst() {
+		return Int{acc.c}, true
+	}
+	return Sym{acc}, true
 }
 
 func (fr *frame) evalInstr(v ssa.Value, ins ssa.Instruction) Value {
@@ -614,6 +699,11 @@ func (fr *frame) evalInstr(v ssa.Value, ins ssa.Instruction) Value {
 	case *ssa.IndexAddr:
 		switch c := fr.get(x.X).(type) {
 		case Slice:
+			if sym, ok := fr.get(x.Index).(Sym); ok && !c.isNil {
+				if v, ok := fr.tableSelect(x, c.arr, c.off, c.len, sym, ins, "slice"); ok {
+					return tableLoad{v}
+				}
+			}
 			idx := fr.concreteIndex(fr.get(x.Index), x.Index.Type(), c.len, ins, "slice")
 			return c.at(idx)
 		case Pointer:
@@ -621,6 +711,11 @@ func (fr *frame) evalInstr(v ssa.Value, ins ssa.Instruction) Value {
 				panic(goPanic{val: "invalid memory address or nil pointer dereference (array index)", where: in.where(ins)})
 			}
 			n := len((*c.slot()).(*Array).e)
+			if sym, ok := fr.get(x.Index).(Sym); ok {
+				if v, ok := fr.tableSelect(x, c, 0, n, sym, ins, "array"); ok {
+					return tableLoad{v}
+				}
+			}
 			idx := fr.concreteIndex(fr.get(x.Index), x.Index.Type(), n, ins, "array")
 			return c.sub(idx)
 		}
@@ -839,6 +934,9 @@ func (fr *frame) unop(x *ssa.UnOp) Value {
 	v := fr.get(x.X)
 	switch x.Op {
 	case token.MUL:
+		if tl, ok := v.(tableLoad); ok {
+			return copyVal(tl.v)
+		}
 		p := v.(Pointer)
 		if p.isNil() {
 			panic(goPanic{val: "invalid memory address or nil pointer dereference (load)", where: fr.in.where(x)})
